@@ -59,13 +59,17 @@ fn val_bytes(v: u64) -> Vec<u8> {
     b
 }
 
+/// The id of a value.  A value is its 8-byte big-endian id followed by a filler whose length and bytes
+/// are a function of the id, so the first 8 bytes identify it; anything that is not exactly the
+/// bytes `val_bytes(id)` is reported as the impossible id MAX - 3 (no write has it).
 fn val_id(b: &[u8]) -> u64 {
     if b.len() < 8 {
-        return u64::MAX;
+        return u64::MAX - 3;
     }
     let mut x = [0u8; 8];
     x.copy_from_slice(&b[..8]);
-    u64::from_be_bytes(x)
+    let v = u64::from_be_bytes(x);
+    if val_bytes(v).as_slice() == b { v } else { u64::MAX - 3 }
 }
 
 #[derive(Clone, Debug)]
